@@ -1,6 +1,7 @@
 import NTV.Proofs.Lemmas.LinAlgProofs
 import NTV.Proofs.Lemmas.LinAlgIim
 import NTV.Proofs.Lemmas.LinAlgSupp
+import NTV.Proofs.Lemmas.LinAlgImgFinal
 /-! # C18 — exact rational linear algebra: property theorems about the model `NTV.LinAlg`
 `A` is any square rational (resp. integer) matrix given as a list of `n` rows of length `n`;
 `toM n n A` is the corresponding Mathlib matrix. Helper lemmas are in
@@ -90,5 +91,58 @@ example : iim [[1, 0, 1], [2, 0, 3]] [[3, 1, 4]] = .error errNotInImage := by de
 example : iim [[1, 0], [2, 0]] [[3, 1]] = .error errLinearlyDependent := by decide +kernel
 example : supplementBasis [[1, 0, 1], [2, 0, 3]] = .ok [[1, 0, 1], [2, 0, 3], [0, 1, 0]] := by decide +kernel
 example : supplementBasis [[1, 0, 1], [2, 0, 2]] = .error errInsufficientRank := by decide +kernel
+
+/-- the image routine over `F_p` never fails on a rectangular `n × m` integer matrix (`n ≥ 1`, any
+`m`, `p` prime) — in particular its internal count assertion never fires — and what it returns is a
+list of rows of the input, taken at pairwise distinct row indices (whatever the entries are) -/
+theorem image_mod_p_total (M : IMat) (n m p : Nat) (hp : p.Prime) (hM : Rect n m M) (hn : 0 < n) :
+    ∃ idx : List Nat, (∀ i ∈ idx, i < n) ∧ idx.Nodup ∧
+      imageModP M (p : Int) = .ok (idx.map (fun i => M.getD i [])) := by
+  obtain ⟨idx, h1, h2, h3, _⟩ := imageModP_spec p hp M n m hM hn
+  exact ⟨idx, h1, h2, h3⟩
+
+/-- the image routine over `F_p` (`p` prime) on an `n × m` matrix (`n ≥ 1`, any `m`) whose entries
+represent elements of `F_p` faithfully — the only entry divisible by `p` is `0`, as is the case for
+entries in `0..p` or in `-p..p` — returns rows of the input (at pairwise distinct row indices
+`idx`) that, read modulo `p`, are linearly independent and span every row of the input: a basis of
+the row space of `M` over `F_p` consisting of rows of `M`.
+
+The hypothesis on the entries cannot be dropped: the code tests the integer entries of the input
+against `0`, not their residues (`imageModP [[5, 1], [0, 1]] 5 = [[5, 1], [0, 1]]`, see below). -/
+theorem image_mod_p (M : IMat) (n m p : Nat) (hp : p.Prime) (hM : Rect n m M) (hn : 0 < n)
+    (hred : ∀ row ∈ M, ∀ x ∈ row, (p : Int) ∣ x → x = 0) :
+    ∃ idx : List Nat, (∀ i ∈ idx, i < n) ∧ idx.Nodup ∧
+      imageModP M (p : Int) = .ok (idx.map (fun i => M.getD i [])) ∧
+      let R := idx.map (fun i => M.getD i [])
+      let Rp : Matrix (Fin idx.length) (Fin m) (ZMod p) := (toM idx.length m R).map (Int.cast : ℤ → ZMod p)
+      let Mp : Matrix (Fin n) (Fin m) (ZMod p) := (toM n m M).map (Int.cast : ℤ → ZMod p)
+      (∀ y : Fin idx.length → ZMod p, y ᵥ* Rp = 0 → y = 0) ∧
+      (∀ i : Fin n, ∃ x : Fin idx.length → ZMod p, x ᵥ* Rp = Mp i) := by
+  obtain ⟨idx, h1, h2, h3, h4⟩ := imageModP_spec p hp M n m hM hn
+  exact ⟨idx, h1, h2, h3, h4 hred⟩
+
+/-- the same for entries in `0..p` -/
+theorem image_mod_p_reduced (M : IMat) (n m p : Nat) (hp : p.Prime) (hM : Rect n m M) (hn : 0 < n)
+    (hred : ∀ row ∈ M, ∀ x ∈ row, 0 ≤ x ∧ x < (p : Int)) :
+    ∃ idx : List Nat, (∀ i ∈ idx, i < n) ∧ idx.Nodup ∧
+      imageModP M (p : Int) = .ok (idx.map (fun i => M.getD i [])) ∧
+      let R := idx.map (fun i => M.getD i [])
+      let Rp : Matrix (Fin idx.length) (Fin m) (ZMod p) := (toM idx.length m R).map (Int.cast : ℤ → ZMod p)
+      let Mp : Matrix (Fin n) (Fin m) (ZMod p) := (toM n m M).map (Int.cast : ℤ → ZMod p)
+      (∀ y : Fin idx.length → ZMod p, y ᵥ* Rp = 0 → y = 0) ∧
+      (∀ i : Fin n, ∃ x : Fin idx.length → ZMod p, x ᵥ* Rp = Mp i) := by
+  apply image_mod_p M n m p hp hM hn
+  intro row hrow x hx hd
+  obtain ⟨h0, h1⟩ := hred row hrow x hx
+  exact Int.eq_zero_of_dvd_of_nonneg_of_lt h0 h1 hd
+
+/-- non-vacuity for `image_mod_p`: a rank-2 matrix over `F_5`, and the two inputs with an entry
+`5` on which the conclusion fails (a zero row, resp. two equal rows modulo 5, are returned) -/
+example : Rect 3 3 ([[1, 3, 2], [2, 1, 3], [0, 0, 1]] : IMat) := ⟨rfl, by simp⟩
+example : ∀ row ∈ ([[1, 3, 2], [2, 1, 3], [0, 0, 1]] : IMat), ∀ x ∈ row, 0 ≤ x ∧ x < ((5 : Nat) : Int) := by decide
+example : imageModP [[1, 3, 2], [2, 1, 3], [0, 0, 1]] 5 = .ok [[1, 3, 2], [2, 1, 3]] := by decide +kernel
+example : imageModP [[1, 3, 2], [0, 0, 0], [2, 1, 0], [0, 0, 0]] 5 = .ok [[1, 3, 2], [2, 1, 0]] := by decide +kernel
+example : imageModP [[5]] 5 = .ok [[5]] := by decide +kernel
+example : imageModP [[5, 1], [0, 1]] 5 = .ok [[5, 1], [0, 1]] := by decide +kernel
 
 end NTV.C18
